@@ -258,4 +258,14 @@ def lemma_obligations(e: Engine) -> List[Obligation]:
             e.spec_mode, e.pending_raises, e.guards, e.lambda_env = saved
         o = Obligation(f"lemma/{lem['name']}", list(st.pc), g, {}, "", "lemma")
         out.append(o)
+        # vacuity guard: the premise of an implication lemma must be satisfiable
+        node = ast.parse(lem["statement"].strip(), mode="eval").body
+        if isinstance(node, ast.Call) and isinstance(node.func, ast.Name) and node.func.id == "implies":
+            saved = (e.spec_mode, e.pending_raises, e.guards, e.lambda_env)
+            e.spec_mode, e.pending_raises, e.guards, e.lambda_env = True, [], [], [env]
+            try:
+                prem = e.truthy(st, e.ev(node.args[0], st))
+            finally:
+                e.spec_mode, e.pending_raises, e.guards, e.lambda_env = saved
+            out.append(Obligation(f"lemma/{lem['name']}/cover:premise", list(st.pc) + [prem], FALSE, {}, "", "cover", expect="sat"))
     return out
